@@ -184,10 +184,21 @@ Definition render_vis (its : list item) (v : vis) (maxrow : Z) : result (list (Z
   (* if trim_top: final_canvas.trim(trim_top) *)
   if negb (trt =? 0) && ((trt <? 0) || (total <=? trt)) then Err ValueError else
   let l1 := if trt =? 0 then all else dropz trt all in
-  let cur := if trt =? 0 then cur else match cur with Some y => Some (y - trt) | None => None end in
+  (* CompositeCanvas.trim: translate_coords(0, -top), then _drop_cursor_outside *)
+  let cur := if trt =? 0 then cur else
+             match cur with
+             | Some y => if (0 <=? y - trt) && (y - trt <? total - trt) then Some (y - trt) else None
+             | None => None
+             end in
   (* if trim_bottom: final_canvas.trim_end(trim_bottom) *)
   if negb (trb =? 0) && ((trb <=? 0) || (zlen l1 <? trb)) then Err ValueError else
   let l2 := if trb =? 0 then l1 else takez (zlen l1 - trb) l1 in
+  (* CompositeCanvas.trim_end: _drop_cursor_outside *)
+  let cur := if trb =? 0 then cur else
+             match cur with
+             | Some y => if (0 <=? y) && (y <? zlen l1 - trb) then Some y else None
+             | None => None
+             end in
   let rows := total - trt - trb in
   if maxrow <? rows then Err ListBoxError
   else if rows <? maxrow then
